@@ -119,7 +119,7 @@ static const PmcConfig CFG[] = {
     {"mw:sss|rrr",    3, {2,4}, {0,0}, {0,0}, {0,0}, "8-bit marks"},
     {"M0:pp|pp|oooo", 3, {2,3}, {0,0}, {0,0}, {0,0}, "two producers"},
     {"M0:ss|s|rr|r",  3, {1,3}, {0,0}, {0,0}, {0,0}, "two producers, two consumers"},
-    {"M0:sp|ps|ro|or",2, {1,3}, {0,0}, {0,0}, {0,0}, ""},
+    {"M0:sp|ss|r|ro",2, {1,3}, {0,0}, {0,0}, {0,0}, "mix of try and blocking operations (blocking receives never outnumber the blocking sends)"},
     {"B0:pp|oo",      3, {3,6}, {0,0}, {0,0}, {0,0}, ""},
     {"B0:P|p|OO",     3, {2,4}, {0,0}, {0,0}, {0,0}, "batch push racing with single push: ordered publication"},
     {"Bw:ss|ss|rrrr", 3, {2,3}, {0,0}, {0,0}, {0,0}, ""},
